@@ -39,6 +39,9 @@ type FibStrategy interface {
 	FindStrategyEnc(name enc.Name) enc.Name
 	InsertNextHopEnc(name enc.Name, nextHop uint64, cost uint64)
 	ClearNextHopsEnc(name enc.Name)
+	// SetNextHopsEnc replaces all nexthops of the prefix in a single step: a lookup
+	// sees either the previous nexthops or the given ones, never a partial set.
+	SetNextHopsEnc(name enc.Name, nexthops []FibNextHopEntry)
 	RemoveNextHopEnc(name enc.Name, nextHop uint64)
 	GetAllFIBEntries() []FibStrategyEntry
 	SetStrategyEnc(name enc.Name, strategy enc.Name)
@@ -71,6 +74,24 @@ func copyNextHops(nexthops []*FibNextHopEntry) []*FibNextHopEntry {
 	for i, nh := range nexthops {
 		nhCopy := *nh
 		ret[i] = &nhCopy
+	}
+	return ret
+}
+
+// newNextHops returns table-owned next-hop entries for the given list. A face listed
+// twice keeps its last cost, as with repeated insertions.
+func newNextHops(nexthops []FibNextHopEntry) []*FibNextHopEntry {
+	ret := make([]*FibNextHopEntry, 0, len(nexthops))
+outer:
+	for _, nh := range nexthops {
+		for _, existing := range ret {
+			if existing.Nexthop == nh.Nexthop {
+				existing.Cost = nh.Cost
+				continue outer
+			}
+		}
+		nhCopy := nh
+		ret = append(ret, &nhCopy)
 	}
 	return ret
 }
